@@ -5,7 +5,7 @@ Sym(S) == S \cup {0 - x : x \in S}
 Rng(n) == (0 - n)..n
 \* small universes
 R7 == Rng(7)   R3 == Rng(3)   R15 == Rng(15)   R5 == Rng(5)
-A7 == (-1)..7  A15 == (-1)..15
+A7 == (-1)..7  A15 == (-1)..15  A0 == {0}
 \* full scale (MOD = 2^31): boundary magnitudes
 P(k) == 2 ^ k
 Big == 2147483647
